@@ -10,9 +10,11 @@ open HipVerif.Model
 /-- When `t` holds the only handle, every payload access is known to `t` or covered by the
 release view of the count's last message. -/
 theorem Wf2.sole_owner_knows {c : Cfg} {s : State} (h1 : Wf1 c s) (h : Wf2 c s) {t : Nat}
-    {th : Thread} (ht : s.thr[t]? = some th) (ho : 1 ≤ owned th) (htot : total s = 1) (w : Nat) :
+    {th : Thread} (ht : s.thr[t]? = some th) (ho : 1 ≤ owned th) (htot : total s = 1)
+    (hp : th.handles = 0 ∨ pinned s t = false) (w : Nat) :
     vat s.acc w ≤ max (vat th.view w) (vat s.last.rel w) := by
-  obtain ⟨hf0, hnox⟩ := h1.owner_facts ht ho
+  obtain ⟨hf0, hnox⟩ := h1.owner_facts ht (Or.inl ho)
+  have hle := owned_le_total s t th ht
   cases hw : s.thr[w]? with
   | none => rw [h.N w hw]; omega
   | some wh =>
@@ -22,7 +24,8 @@ theorem Wf2.sole_owner_knows {c : Cfg} {s : State} (h1 : Wf1 c s) (h : Wf2 c s) 
       subst this
       have := h.B _ wh ht; omega
     · have hadd := owned_add_le_total s t w th wh (Ne.symm hwt) ht hw
-      rcases h.K hf0 w wh hw (by omega) (hnox w wh hwt hw) with hl | ⟨v, vh, hv, hvo, hvk⟩
+      have hnr : wh.refs = [] := h1.sole_no_refs ht (by omega) htot hp hw
+      rcases h.K hf0 w wh hw (by omega) hnr (hnox w wh hwt hw) with hl | ⟨v, vh, hv, hvo, hvk⟩
       · omega
       · by_cases hvt : v = t
         · subst hvt
@@ -64,7 +67,7 @@ theorem Wf2.fenceStep {c : Cfg} (sh : Shape c) {s : State} (h1 : Wf1 c s) (h : W
   rw [norm_of_localRet c.ceil old hr]
   have hex : excl { th with view := if o.isAcquire then vjoin th.view th.pend else th.view, pc := some ⟨k, rest, old⟩ } = excl th := by
     cases k <;> simp [excl, hpc, localRet]
-  refine h.upd ht rfl rfl rfl rfl rfl rfl (Or.inl rfl) ?_ ?_ ?_ ?_
+  refine h.upd ht rfl rfl rfl rfl rfl rfl (Or.inl rfl) ?_ rfl ?_ ?_ ?_
   · cases k <;> simp [owned, inflight, hpc, localRet] <;> congr
   · intro u
     dsimp only
@@ -89,8 +92,9 @@ theorem Wf2.retStep {c : Cfg} {s s' : State} (h : Wf2 c s) {t : Nat} {th th' : T
     (hfreed : s'.freed = s.freed) (hacc : s'.acc = s.acc) (hwr : s'.wr = s.wr)
     (hrace : s'.race = s.race) (huaf : s'.uaf = s.uaf)
     (hown : owned th' = owned th) (hview : th'.view = th.view) (hpc : th'.pc = none)
+    (hrefs : th'.refs = th.refs)
     (hx : excl th = false) : Wf2 c s' := by
-  refine h.upd ht hthr hlast hfreed hacc hwr hrace (Or.inl huaf) hown ?_ ?_ ?_
+  refine h.upd ht hthr hlast hfreed hacc hwr hrace (Or.inl huaf) hown hrefs ?_ ?_ ?_
   · intro u; rw [hview]; exact Nat.le_refl _
   · intro _ _; exact hx
   · intro he; simp [excl, hpc] at he
@@ -102,7 +106,7 @@ theorem Wf2.loadStep {c : Cfg} {s : State} (h : Wf2 c s) {t : Nat} {th : Thread}
     (hx : excl th = false)
     (hx' : excl (acquireInto { th with coh := i, pc := some pc' } o (s.msgAt i).rel) = false) :
     Wf2 c (doLoad s t th i o pc') := by
-  refine h.upd ht rfl rfl rfl rfl rfl rfl (Or.inr ⟨hf0, rfl⟩) hown ?_ ?_ ?_
+  refine h.upd ht rfl rfl rfl rfl rfl rfl (Or.inr ⟨hf0, rfl⟩) hown (by simp) ?_ ?_ ?_
   · intro u
     exact vat_acquireInto_view_le { th with coh := i, pc := some pc' } o (s.msgAt i).rel u
   · intro _ _; exact hx
@@ -112,13 +116,13 @@ theorem Wf2.loadStep {c : Cfg} {s : State} (h : Wf2 c s) {t : Nat} {th : Thread}
 theorem Wf2.loadUniq {c : Cfg} (sh : Shape c) (ho : Ords sh) {s : State} (h1 : Wf1 c s) (h : Wf2 c s)
     {t : Nat} {th : Thread} (ht : s.thr[t]? = some th) {k : Kont} (hk : k = .mutate ∨ k = .unwrap)
     {old : Nat} (hpc : th.pc = some ⟨k, c.proto.isUnique, old⟩) (hh : 1 ≤ th.handles)
-    {ch : Nat} (hch : th.coh ≤ ch) :
+    (hnp : pinned s t = false) {ch : Nat} (hch : th.coh ≤ ch) :
     Wf2 c (doLoad s t th ch sh.ul ⟨k, norm c.ceil [.branch .eq (.lit 0) sh.uthn (.bool true) sh.uels (.bool false)] (s.msgAt ch).val, (s.msgAt ch).val⟩) := by
   have hownth : owned th = th.handles := by
     rcases hk with rfl | rfl <;> simp [owned, inflight, hpc]
   have hxth : excl th = false := by
     rcases hk with rfl | rfl <;> simp [excl, hpc, sh.huniq, localRet]
-  refine h.upd ht rfl rfl rfl rfl rfl rfl (Or.inr ⟨(h1.owner_facts ht (by omega)).1, rfl⟩) ?_ ?_ ?_ ?_
+  refine h.upd ht rfl rfl rfl rfl rfl rfl (Or.inr ⟨(h1.owner_facts ht (Or.inl (by omega))).1, rfl⟩) ?_ (by simp) ?_ ?_ ?_
   · rcases hk with rfl | rfl <;> simp [owned, inflight, hpc]
   · intro u
     exact vat_acquireInto_view_le' _ sh.ul (s.msgAt ch).rel u _ rfl
@@ -130,13 +134,15 @@ theorem Wf2.loadUniq {c : Cfg} (sh : Shape c) (ho : Ords sh) {s : State} (h1 : W
         cases hm : s.hist[ch]? with
         | none => rfl
         | some m =>
-          have := h1.J t th ht (by omega) ch m hm hch
+          exfalso
           simp [State.msgAt, hm] at hv
-          omega
+          rcases h1.J ch m hm hv t th ht (by omega) with h' | ⟨w, wh, hw, hmem, _⟩
+          · omega
+          · exact not_mem_of_not_pinned hnp hw hmem
       rw [hlast] at hv
       have hle := owned_le_total s t th ht
       have htr := h1.track (by omega)
-      have hkn := h.sole_owner_knows h1 ht (by omega) (by omega) u
+      have hkn := h.sole_owner_knows h1 ht (by omega) (by omega) (Or.inr hnp) u
       refine Nat.le_trans hkn ?_
       rw [hlast]
       have hq := ho.uniq_acquire
@@ -161,32 +167,40 @@ theorem Wf2.startStep {c : Cfg} (sh : Shape c) {s s' : State} (h1 : Wf1 c s) (h 
   split at hs
   · simp at hs
   rename_i hidle
-  obtain ⟨hpc, hh⟩ := idle_of_not hidle
+  have hpc : th.pc = none := by simpa using hidle
   have hx : excl th = false := by simp [excl, hpc]
   have hownth : owned th = th.handles := by simp [owned, inflight, hpc]
-  cases a <;> simp only [Option.some.injEq] at hs <;> subst hs
+  cases a <;> simp only at hs <;> split at hs <;> try (simp at hs; done)
+  all_goals rename_i hcan
+  all_goals simp only [Option.some.injEq] at hs
+  all_goals subst hs
   · -- read
-    refine h.read (th' := { tick th t with res := th.res ++ [s.pval] }) h1 ht (by omega) ?_ hpc
+    have huse : 1 ≤ owned th ∨ th.refs ≠ [] := by
+      rcases canUse_iff.1 hcan with h' | h'
+      · exact Or.inl (by omega)
+      · exact Or.inr h'
+    refine h.read (th' := { tick th t with res := th.res ++ [s.pval] }) h1 ht huse ?_ rfl hpc
       rfl rfl rfl rfl rfl rfl rfl
     simp [owned, hpc]
   · -- clone
-    refine h.upd ht rfl rfl rfl rfl rfl rfl (Or.inl rfl) ?_ (fun _ => Nat.le_refl _) (fun _ _ => hx) ?_
+    refine h.upd ht rfl rfl rfl rfl rfl rfl (Or.inl rfl) ?_ rfl (fun _ => Nat.le_refl _) (fun _ _ => hx) ?_
     · simp [owned, inflight, hpc, sh.hincr, norm, localRet]
     · intro he; simp [excl] at he
   · -- drop
-    refine h.upd ht rfl rfl rfl rfl rfl rfl (Or.inl rfl) ?_ (fun _ => Nat.le_refl _) (fun _ _ => hx) ?_
+    obtain ⟨hh, hnp⟩ := canOwn_iff.1 hcan
+    refine h.upd ht rfl rfl rfl rfl rfl rfl (Or.inl rfl) ?_ rfl (fun _ => Nat.le_refl _) (fun _ _ => hx) ?_
     · simp [owned, inflight, hpc, sh.hdecr, norm, localRet]; omega
     · intro he; simp [excl, sh.hdecr, norm, localRet] at he
   · -- mutate
-    refine h.upd ht rfl rfl rfl rfl rfl rfl (Or.inl rfl) ?_ (fun _ => Nat.le_refl _) (fun _ _ => hx) ?_
+    refine h.upd ht rfl rfl rfl rfl rfl rfl (Or.inl rfl) ?_ rfl (fun _ => Nat.le_refl _) (fun _ _ => hx) ?_
     · simp [owned, inflight, hpc]
     · intro he; simp [excl, sh.huniq, norm, localRet] at he
   · -- unwrap
-    refine h.upd ht rfl rfl rfl rfl rfl rfl (Or.inl rfl) ?_ (fun _ => Nat.le_refl _) (fun _ _ => hx) ?_
+    refine h.upd ht rfl rfl rfl rfl rfl rfl (Or.inl rfl) ?_ rfl (fun _ => Nat.le_refl _) (fun _ _ => hx) ?_
     · simp [owned, inflight, hpc]
     · intro he; simp [excl, sh.huniq, norm, localRet] at he
   · -- count
-    refine h.upd ht rfl rfl rfl rfl rfl rfl (Or.inl rfl) ?_ (fun _ => Nat.le_refl _) (fun _ _ => hx) ?_
+    refine h.upd ht rfl rfl rfl rfl rfl rfl (Or.inl rfl) ?_ rfl (fun _ => Nat.le_refl _) (fun _ _ => hx) ?_
     · simp [owned, inflight, hpc]
     · intro he; simp [excl] at he
 
@@ -199,10 +213,41 @@ theorem Wf2.sendStep {c : Cfg} {s s' : State} (h1 : Wf1 c s) (h : Wf2 c s) {t u 
     · simp at hs
     · rename_i hc
       simp at hc
+      obtain ⟨⟨⟨htu, hpt⟩, hpu⟩, hcan'⟩ := hc
+      obtain ⟨hh, _⟩ := canOwn_iff.1 hcan'
+      simp only [Option.some.injEq] at hs
+      subst hs
+      exact h.send h1 ht hu htu hpt hpu hh _ _ _ rfl rfl
+  · simp at hs
+
+theorem Wf2.borrowStep {c : Cfg} {s s' : State} (h : Wf2 c s) {t u : Nat}
+    (hs : borrowStep s t u = some s') : Wf2 c s' := by
+  unfold Conc.borrowStep at hs
+  split at hs
+  · rename_i th uh ht hu
+    split at hs
+    · simp at hs
+    · rename_i hc
+      simp at hc
       obtain ⟨⟨⟨htu, hpt⟩, hpu⟩, hh⟩ := hc
       simp only [Option.some.injEq] at hs
       subst hs
-      exact h.send h1 ht hu htu hpt hpu (by omega) _ _ _ rfl rfl
+      exact h.borrow ht hu hpt (by omega) _ _ rfl
+  · simp at hs
+
+theorem Wf2.unborrowStep {c : Cfg} {s s' : State} (h1 : Wf1 c s) (h : Wf2 c s) {t u : Nat}
+    (hs : unborrowStep s t u = some s') : Wf2 c s' := by
+  unfold Conc.unborrowStep at hs
+  split at hs
+  · rename_i th uh ht hu
+    split at hs
+    · simp at hs
+    · rename_i hc
+      simp at hc
+      obtain ⟨⟨⟨htu, hpt⟩, hpu⟩, hm'⟩ := hc
+      simp only [Option.some.injEq] at hs
+      subst hs
+      exact h.unborrow h1 ht hu htu hpt hpu hm' _ _ _ rfl rfl
   · simp at hs
 
 theorem Wf2.microStep {c : Cfg} (sh : Shape c) (ho : Ords sh) {s s' : State} (h1 : Wf1 c s)
@@ -215,12 +260,15 @@ theorem Wf2.microStep {c : Cfg} (sh : Shape c) (ho : Ords sh) {s s' : State} (h1
   · simp at hs
   rename_i pc hpc
   obtain ⟨k, code, old⟩ := pc
-  obtain ⟨hok, hh⟩ := h1.pcok t th _ ht hpc
+  obtain ⟨hok, hside⟩ := h1.pcok t th _ ht hpc
   cases k
   · -- clone
-    have hh1 : 1 ≤ th.handles := hh (by simp)
     have hx : excl th = false := by simp [excl, hpc]
-    have hf0 : s.freed = 0 := (h1.owner_facts ht (by simp [owned]; omega)).1
+    have huse : 1 ≤ owned th ∨ th.refs ≠ [] := by
+      rcases hside.1 (Or.inl rfl) with h' | h'
+      · exact Or.inl (by simp [owned]; omega)
+      · exact Or.inr h'
+    have hf0 : s.freed = 0 := (h1.owner_facts ht huse).1
     simp only [PcOk, sh.hincr, List.tail] at hok
     rcases hok with rfl | rfl | hl | hl
     · dsimp only at hs
@@ -235,7 +283,7 @@ theorem Wf2.microStep {c : Cfg} (sh : Shape c) (ho : Ords sh) {s s' : State} (h1
       · split at hs
         · split at hs
           · simp only [Option.some.injEq] at hs; subst hs
-            exact h.casSucc h1 ht hpc (by simp [localRet]) hh1 _ _
+            exact h.casSucc h1 ht hpc (by simp [localRet]) _ _
           · simp at hs
         · split at hs
           · simp only [Option.some.injEq] at hs; subst hs
@@ -245,7 +293,7 @@ theorem Wf2.microStep {c : Cfg} (sh : Shape c) (ho : Ords sh) {s s' : State} (h1
           · simp at hs
       · split at hs
         · simp only [Option.some.injEq] at hs; subst hs
-          refine h.upd ht rfl rfl rfl rfl rfl rfl (Or.inl rfl) ?_ (fun _ => Nat.le_refl _) (fun _ _ => hx) ?_
+          refine h.upd ht rfl rfl rfl rfl rfl rfl (Or.inl rfl) ?_ rfl (fun _ => Nat.le_refl _) (fun _ _ => hx) ?_
           · simp [owned, inflight, hpc, norm, localRet]
           · intro he; simp [excl] at he
         · simp at hs
@@ -253,7 +301,7 @@ theorem Wf2.microStep {c : Cfg} (sh : Shape c) (ho : Ords sh) {s s' : State} (h1
       · dsimp only at hs
         split at hs
         · simp only [finish, Option.some.injEq] at hs; subst hs
-          refine h.retStep ht rfl rfl rfl rfl rfl rfl rfl ?_ rfl rfl hx
+          refine h.retStep ht rfl rfl rfl rfl rfl rfl rfl ?_ rfl rfl rfl hx
           simp [owned, inflight, hpc, localRet]
         · simp at hs
       · dsimp only at hs
@@ -266,9 +314,8 @@ theorem Wf2.microStep {c : Cfg} (sh : Shape c) (ho : Ords sh) {s s' : State} (h1
         split at hs
         · simp only [finish, Option.some.injEq] at hs; subst hs
           refine h.read (th' := { tick { th with pc := none } t with res := th.res ++ [1] }) h1 ht
-            ?_ ?_ rfl rfl rfl rfl rfl rfl rfl rfl
-          · simp [owned]; omega
-          · simp [owned, inflight, hpc, localRet]
+            huse ?_ rfl rfl rfl rfl rfl rfl rfl rfl rfl
+          simp [owned, inflight, hpc, localRet]
         · simp at hs
       · dsimp only at hs
         split at hs
@@ -297,7 +344,7 @@ theorem Wf2.microStep {c : Cfg} (sh : Shape c) (ho : Ords sh) {s s' : State} (h1
           have hx : excl th = true := by simp [excl, hpc, localRet]
           have hown := (h1.X t th ht hx).2.1
           refine h.exclAccess (th' := { tick { th with pc := none } t with res := th.res ++ [1] })
-            h1 ht hx (by simp [pendUse, hpc, localAcq]) rfl rfl rfl rfl
+            h1 ht hx (by simp [pendUse, hpc, localAcq]) rfl rfl rfl rfl rfl
             (Or.inr ⟨rfl, ?_⟩) rfl rfl rfl rfl
           simp [owned, inflight, hpc, localRet, exclOwn] at hown
           simp [owned, inflight, hown]
@@ -311,7 +358,7 @@ theorem Wf2.microStep {c : Cfg} (sh : Shape c) (ho : Ords sh) {s s' : State} (h1
       · dsimp only at hs
         split at hs
         · simp only [finish, Option.some.injEq] at hs; subst hs
-          refine h.retStep ht rfl rfl rfl rfl rfl rfl rfl ?_ rfl rfl ?_
+          refine h.retStep ht rfl rfl rfl rfl rfl rfl rfl ?_ rfl rfl rfl ?_
           · simp [owned, inflight, hpc, localRet]
           · simp [excl, hpc, localRet]
         · simp at hs
@@ -321,25 +368,26 @@ theorem Wf2.microStep {c : Cfg} (sh : Shape c) (ho : Ords sh) {s s' : State} (h1
           exact h.fenceStep sh h1 ht hpc
         · simp at hs
   · -- mutate
-    have hh1 : 1 ≤ th.handles := hh (by simp)
+    have hh1 : 1 ≤ th.handles := hside.2.1 (by simp)
+    have hnp : pinned s t = false := hside.2.2 (by simp) (by simp)
     simp only [PcOk, sh.huniq] at hok
     rcases hok with rfl | ⟨b, hl⟩
     · dsimp only at hs
       split at hs
       · rename_i hch
         simp only [Option.some.injEq] at hs; subst hs
-        exact h.loadUniq sh ho h1 ht (Or.inl rfl) (by rw [sh.huniq]; exact hpc) hh1 hch.1
+        exact h.loadUniq sh ho h1 ht (Or.inl rfl) (by rw [sh.huniq]; exact hpc) hh1 hnp hch.1
       · simp at hs
     · rcases localRet_cases hl with ⟨tl, rfl⟩ | ⟨o, rest, rfl, hr⟩
       · dsimp only at hs
         split at hs
         · cases b <;> simp only [finish, Option.some.injEq] at hs <;> subst hs
-          · refine h.retStep ht rfl rfl rfl rfl rfl rfl rfl ?_ rfl rfl ?_
+          · refine h.retStep ht rfl rfl rfl rfl rfl rfl rfl ?_ rfl rfl rfl ?_
             · simp [owned, inflight, hpc]
             · simp [excl, hpc, localRet]
           · have hx : excl th = true := by simp [excl, hpc, localRet]
             refine h.exclAccess (th' := { tick { th with pc := none } t with res := th.res ++ [1] })
-              h1 ht hx (by simp [pendUse, hpc, localAcq]) rfl rfl rfl rfl
+              h1 ht hx (by simp [pendUse, hpc, localAcq]) rfl rfl rfl rfl rfl
               (Or.inl ⟨rfl, ?_, ?_⟩) rfl rfl rfl rfl
             · simp [owned, inflight, hpc]
             · simp [owned]; omega
@@ -350,27 +398,28 @@ theorem Wf2.microStep {c : Cfg} (sh : Shape c) (ho : Ords sh) {s s' : State} (h1
           exact h.fenceStep sh h1 ht hpc
         · simp at hs
   · -- unwrap
-    have hh1 : 1 ≤ th.handles := hh (by simp)
+    have hh1 : 1 ≤ th.handles := hside.2.1 (by simp)
+    have hnp : pinned s t = false := hside.2.2 (by simp) (by simp)
     simp only [PcOk, sh.huniq] at hok
     rcases hok with rfl | ⟨b, hl⟩
     · dsimp only at hs
       split at hs
       · rename_i hch
         simp only [Option.some.injEq] at hs; subst hs
-        exact h.loadUniq sh ho h1 ht (Or.inr rfl) (by rw [sh.huniq]; exact hpc) hh1 hch.1
+        exact h.loadUniq sh ho h1 ht (Or.inr rfl) (by rw [sh.huniq]; exact hpc) hh1 hnp hch.1
       · simp at hs
     · rcases localRet_cases hl with ⟨tl, rfl⟩ | ⟨o, rest, rfl, hr⟩
       · dsimp only at hs
         split at hs
         · cases b <;> simp only [finish, Option.some.injEq] at hs <;> subst hs
-          · refine h.retStep ht rfl rfl rfl rfl rfl rfl rfl ?_ rfl rfl ?_
+          · refine h.retStep ht rfl rfl rfl rfl rfl rfl rfl ?_ rfl rfl rfl ?_
             · simp [owned, inflight, hpc]
             · simp [excl, hpc, localRet]
           · have hx : excl th = true := by simp [excl, hpc, localRet]
             have hown := (h1.X t th ht hx).2.1
             refine h.exclAccess
               (th' := { tick { th with pc := none } t with handles := th.handles - 1, res := th.res ++ [1] })
-              h1 ht hx (by simp [pendUse, hpc, localAcq]) rfl rfl rfl rfl
+              h1 ht hx (by simp [pendUse, hpc, localAcq]) rfl rfl rfl rfl rfl
               (Or.inr ⟨rfl, ?_⟩) rfl rfl rfl rfl
             simp [owned, inflight, hpc, exclOwn] at hown
             simp [owned, inflight, hown]
@@ -381,9 +430,12 @@ theorem Wf2.microStep {c : Cfg} (sh : Shape c) (ho : Ords sh) {s s' : State} (h1
           exact h.fenceStep sh h1 ht hpc
         · simp at hs
   · -- count
-    have hh1 : 1 ≤ th.handles := hh (by simp)
     have hx : excl th = false := by simp [excl, hpc]
-    have hf0 : s.freed = 0 := (h1.owner_facts ht (by simp [owned]; omega)).1
+    have huse : 1 ≤ owned th ∨ th.refs ≠ [] := by
+      rcases hside.1 (Or.inr rfl) with h' | h'
+      · exact Or.inl (by simp [owned]; omega)
+      · exact Or.inr h'
+    have hf0 : s.freed = 0 := (h1.owner_facts ht huse).1
     simp only [PcOk, sh.hget] at hok
     rcases hok with rfl | ⟨b, hl⟩
     · dsimp only at hs
@@ -397,7 +449,7 @@ theorem Wf2.microStep {c : Cfg} (sh : Shape c) (ho : Ords sh) {s s' : State} (h1
       · dsimp only at hs
         split at hs
         · simp only [finish, Option.some.injEq] at hs; subst hs
-          refine h.retStep ht rfl rfl rfl rfl rfl rfl rfl ?_ rfl rfl hx
+          refine h.retStep ht rfl rfl rfl rfl rfl rfl rfl ?_ rfl rfl rfl hx
           simp [owned, inflight, hpc]
         · simp at hs
       · dsimp only at hs
@@ -413,6 +465,8 @@ theorem Wf2.step {c : Cfg} (sh : Shape c) (ho : Ords sh) {s s' : State} (h1 : Wf
   | start t a => exact h.startStep sh h1 hs
   | micro t ch => exact h.microStep sh ho h1 hs
   | send t u => exact h.sendStep h1 hs
+  | borrow t u => exact h.borrowStep hs
+  | unborrow t u => exact h.unborrowStep h1 hs
 
 /-- The initial states satisfy the happens-before invariant. -/
 theorem Wf2.init {c : Cfg} (hs : List Nat) : Wf2 c (init hs) := by
